@@ -21,6 +21,7 @@ from .. import lockrun
 from ..core import ROOT, Check, Driver, HarnessError, ddmin, proof_stage
 
 PROP = "C06"
+BATCH = 250
 DRIVER = Driver("driver_c06", "Drivers/C06.lean")
 CFGS = list(lockrun.CONFIGS)
 
@@ -305,11 +306,29 @@ def compare(an: Analysis, answers: list[str]):
     return d_model, d_spec, d_in
 
 
-def run_case(case: dict):
+def run_impl(case: dict) -> Analysis:
     events, info = lockrun.execute(case)
-    an = Analysis(case, events, info)
-    answers = DRIVER.ask(model_lines(an))
-    return an, answers
+    return Analysis(case, events, info)
+
+
+def ask_model(ans: list[Analysis]) -> list[list[str]]:
+    """one driver process for a whole batch of traces"""
+    lines: list[str] = []
+    for an in ans:
+        lines.extend(model_lines(an))
+    out = DRIVER.ask(lines) if lines else []
+    res = []
+    pos = 0
+    for an in ans:
+        n = len(an.lines) + 1
+        res.append(out[pos:pos + n])
+        pos += n
+    return res
+
+
+def run_case(case: dict):
+    an = run_impl(case)
+    return an, ask_model([an])[0]
 
 
 def verdict(an: Analysis, answers):
@@ -436,9 +455,9 @@ def enumerate_all(case: dict, limit: int):
     while stack and seen < limit:
         prefix = stack.pop()
         c = dict(case, mode="gated", schedule=list(prefix), skip_pointless=True)
-        an, answers = run_case(c)
+        an = run_impl(c)
         seen += 1
-        yield c, an, answers
+        yield c, an
         br = an.info["branching"]
         full = an.info["choices"]
         if len(br) != len(full) or full[:len(prefix)] != [p % b for p, b in zip(prefix, br)]:
@@ -458,7 +477,7 @@ def cancel_sweep(prog: dict, rng, nbase: int):
     seen = set()
     for base in bases:
         c0 = dict(prog, mode="gated", schedule=list(base), skip_pointless=True)
-        an0, _ = run_case(c0)
+        an0 = run_impl(c0)
         full = an0.info["choices"]
         for pos in range(len(full) + 1):
             for t in range(len(prog["tasks"])):
@@ -468,8 +487,7 @@ def cancel_sweep(prog: dict, rng, nbase: int):
                     continue
                 seen.add(key)
                 c = dict(prog, mode="gated", schedule=sched, skip_pointless=True)
-                an, answers = run_case(c)
-                yield c, an, answers
+                yield c, run_impl(c)
 
 
 # ------------------------------------------------------------------------------------------------------
@@ -598,7 +616,7 @@ def canonical(case: dict) -> str:
 
 def run(chk: Check) -> int:
     proof = proof_stage(PROP, "driver_c06", chk.thorough) if not getattr(chk, "skip_proof", False) else None
-    n = chk.budget(1200, 20000)
+    n = chk.budget(2500, 24000)
     enum_limit = chk.budget(300, 6000)
     found = 0
     found_property = False
@@ -635,45 +653,56 @@ def run(chk: Check) -> int:
         report(chk, case, origin, v)
         return True
 
+    pending: list[tuple] = []
+
+    def flush():
+        if not pending:
+            return
+        for (case, an, origin), answers in zip(pending, ask_model([p[1] for p in pending])):
+            if found < 3:
+                consider(case, an, answers, origin)
+        pending.clear()
+
+    def submit(case, an, origin):
+        account(case, an)
+        pending.append((case, an, origin))
+        if len(pending) >= BATCH:
+            flush()
+
     ncorpus = 0
     for name, case in corpus_cases():
-        if found >= 3:
-            break
-        an, answers = run_case(case)
         ncorpus += 1
-        account(case, an)
-        consider(case, an, answers, "corpus:" + name)
+        submit(case, run_impl(case), "corpus:" + name)
+    flush()
     # exhaustive schedule enumeration of the small programs
     for name, prog in (EXHAUSTIVE if chk.thorough else EXHAUSTIVE[:5]):
         if found >= 3:
             break
         count = 0
-        complete = True
-        for case, an, answers in enumerate_all(prog, enum_limit):
+        for case, an in enumerate_all(prog, enum_limit):
             count += 1
-            account(case, an)
-            if consider(case, an, answers, f"exhaustive:{name}"):
+            submit(case, an, f"exhaustive:{name}")
+            if found >= 3:
                 break
-        else:
-            complete = count < enum_limit
-        exhaustive[name] = {"schedules": count, "complete": complete}
+        exhaustive[name] = {"schedules": count, "complete": count < enum_limit and found < 3}
+    flush()
     # cancellation at every suspension point of the small programs
     sweep = 0
     for name, prog in EXHAUSTIVE[:5]:
         if found >= 3:
             break
-        for case, an, answers in cancel_sweep(prog, chk.rng, chk.budget(1, 6)):
+        for case, an in cancel_sweep(prog, chk.rng, chk.budget(1, 6)):
             sweep += 1
-            account(case, an)
-            if consider(case, an, answers, f"cancel-sweep:{name}"):
+            submit(case, an, f"cancel-sweep:{name}")
+            if found >= 3:
                 break
+    flush()
     for i in range(n):
         if found >= 3:
             break
         case = gen_case(chk.rng, i)
-        an, answers = run_case(case)
-        account(case, an)
-        consider(case, an, answers, f"gen:{i}")
+        submit(case, run_impl(case), f"gen:{i}")
+    flush()
     if proof is not None:
         chk.proof_broken(proof, found_property)
     chk.coverage.update({
@@ -707,7 +736,7 @@ def run(chk: Check) -> int:
 INTERESTING = {
     "holder_overstays_ttl", "two_bodies_overlap_one_past_lease", "acquired_over_expired_unpurged_entry",
     "late_unlock_answers_false", "late_unlock_leaves_next_holder_alone", "foreign_unlock_on_held_lock",
-    "exit_cancelled", "exit_exception", "cancelled_while_waiting", "locked_error", "waiter_acquired",
+    "exit_cancelled", "exit_exception", "cancelled_while_waiting",
 }
 
 
